@@ -2375,6 +2375,38 @@ def _mixed_type_program(rng: random.Random) -> dict[str, Any]:
 	ws = [rng.choice(pow2 if op == '/' else fracs) for _ in range(5)]
 	parts.append(f'def lam(n: int, w: float) -> float:\n\tfn: Callable[[int], float] = lambda k: k {op} w\n\treturn fn(n) + fn(n + 1)\n')
 	entry('lam', ['int', 'float'], 'float', [[rng.randint(1, 40), w] for w in ws])
+	# flat `* / %` chains of three or four operands with the ONE float operand in every position (the type that selects the `%` template and the
+	# declared type is the type accumulated along the chain, not the type of the first operand or of the last pair); `/` only by a power of two
+	def chain(pos: int, length: int) -> str:
+		ints = rng.sample(['n', 'm', str(rng.randint(2, 9)), str(rng.randint(2, 9))], length - 1)
+		ops_ = [rng.choice(['*', '%']) for _ in range(length - 1)]
+		fl = rng.choice(['w', 'p'])
+		operands = ints[:pos] + [fl] + ints[pos:]
+		if fl == 'p' and pos > 0 and rng.random() < 0.7:
+			ops_[pos - 1] = '/'
+		if '%' not in ops_:
+			ops_[rng.randrange(len(ops_))] = '%'
+		if fl == 'p' and pos > 0 and ops_[pos - 1] == '%':
+			ops_[pos - 1] = '/'
+		out = operands[0]
+		for o, x in zip(ops_, operands[1:]):
+			out += f' {o} {x}'
+		return out
+	exprs = [chain(pos, length) for length in (3, 4) for pos in range(length)]
+	rng.shuffle(exprs)
+	body = ''.join(f'\tc{i} = {e}\n' for i, e in enumerate(exprs))
+	parts.append(f'def chains(n: int, m: int, w: float, p: float) -> float:\n{body}\treturn ' + ' + '.join(f'c{i}' for i in range(len(exprs))) + '\n')
+	entry('chains', ['int', 'int', 'float', 'float'], 'float', [[rng.randint(1, 9), rng.randint(1, 9), rng.choice(fracs), rng.choice(pow2)] for _ in range(5)])
+	# unary operators on a bool operand (a bool variable, a comparison, a bool call result): `-b` / `+b` / `~b` are ints in Python, `not b` is a bool
+	parts.append(f'def is_big(n: int) -> bool:\n\treturn n > {rng.randint(2, 6)}\n')
+	uns = ['~', '-', '+', '~']
+	rng.shuffle(uns)
+	src_b = lambda: rng.choice(['flag', '(n > m)', 'is_big(n)', '(n == m)'])  # noqa: E731
+	parts.append(f'def unary_local(n: int, m: int, flag: bool) -> int:\n\ta = {uns[0]}{src_b()}\n\tb = {uns[1]}{src_b()}\n\tc = not {src_b()}\n\tt = a * 100 + b * 10\n\tif c:\n\t\tt += 5\n\treturn t + {uns[2]}flag\n')
+	entry('unary_local', ['int', 'int', 'bool'], 'int', [[rng.randint(0, 9), rng.randint(0, 9), rng.random() < 0.5] for _ in range(6)])
+	parts.append(f'def unary_elems(n: int, m: int, flag: bool) -> int:\n\tys = [{uns[1]}{src_b()}, {uns[0]}flag, n]\n\tvs = [n, m + 1, {rng.randint(0, 9)}]\n\tzs = [{uns[3]}(x > m) for x in vs]\n'
+		f'\tfn: Callable[[int], int] = lambda k: {uns[2]}(k > m)\n\tt = fn(n) * 1000\n\tfor y in ys:\n\t\tt += y * 10\n\tfor z in zs:\n\t\tt += z\n\treturn t\n')
+	entry('unary_elems', ['int', 'int', 'bool'], 'int', [[rng.randint(0, 9), rng.randint(0, 9), rng.random() < 0.5] for _ in range(6)])
 	return {'source': '\n\n'.join(parts), 'entries': entries, 'classes': {}}
 
 
